@@ -15,7 +15,12 @@ Decided statically (guards and wiring only; DESIGN.md §3/C12):
                  apply_dp_padding likewise; in a pass the two generating helpers draw from the PRSS side they share
                  (Direction::Left => right generator, Direction::Right => left generator) and the excluded helper
                  contributes zero shares.
-The distribution law, truncation point and achieved delta are numerical: not decided.
+  SHAPE-sampler  the samplers have the documented construction: Geometric counts Bernoulli failures from 0; DoubleGeometric
+                 returns shift + g1 - g2 of two separate geometric draws with success probability 1 - e^(-1/s);
+                 TruncatedDoubleGeometric is a rejection sampler that returns the draw itself, unchanged, exactly on the
+                 edge 0 <= draw <= 2*shift and redraws otherwise (folding, clamping or re-mapping rejected draws changes
+                 the law at the ends of the support).
+The achieved distribution as a numerical object, the truncation point and the achieved delta are not decided.
 """
 import re, struct
 from vlib import facts as F, flow
@@ -31,7 +36,8 @@ def run(ctx):
     guard_params(ctx, facts)
     modulus(ctx, facts)
     passes(ctx, facts)
-    ctx.assume("the sampled distribution (TruncatedDoubleGeometric, find_smallest_n) is numerical and not decided")
+    samplers(ctx, facts)
+    ctx.assume("the numerical law of the samplers (probabilities, find_smallest_n, achieved delta) is not decided; rand's Bernoulli/Uniform are trusted")
 
 
 def f64_of(bits):
@@ -323,3 +329,149 @@ def passes(ctx, facts):
                     if a.count("ZERO") >= 2:
                         zero_ok = True
     ctx.ob("WIRE-passes", "excluded-helper-zero", zero_ok, "the excluded helper contributes zero shares", site_of(lb))
+
+
+# ---------------------------------------------------------------------------------------------
+LOSSLESS = re.compile(r"(TryInto::try_into|TryFrom::try_from|Into::into|From::from|Result::<T, E>::(unwrap|expect)|Option::<T>::(unwrap|expect)|Clone::clone)$")
+DP = "protocol::ipa_prf::oprf_padding::distributions::"
+
+
+def strip_lossless(e):
+    """remove value-preserving integer conversions (try_into().unwrap(), into, from); `as` casts are kept visible"""
+    while True:
+        if e[0] == "call" and LOSSLESS.search(e[1]) and e[2]:
+            e = e[2][0]
+            continue
+        if e[0] == "proj" and e[1][0] == "call" and LOSSLESS.search(e[1][1]):
+            e = e[1]
+            continue
+        return e
+
+
+def linear(e, sign=1, out=None):
+    """flatten +/- over lossless conversions into [(sign, leaf)]"""
+    out = [] if out is None else out
+    e = strip_lossless(e)
+    if e[0] == "bin" and e[1] in ("Add", "Sub", "AddWithOverflow", "SubWithOverflow"):
+        linear(e[2], sign, out)
+        linear(e[3], sign if e[1].startswith("Add") else -sign, out)
+    else:
+        out.append((sign, e))
+    return out
+
+
+def samplers(ctx, facts):
+    ctx.rule("SHAPE-sampler: Geometric::sample returns a counter started at 0 and incremented on the Bernoulli-false edge; DoubleGeometric::sample = shift + g1 - g2 (two draws, lossless conversions); its success probability is 1 - e^(-1/s); TruncatedDoubleGeometric::new stores 2*shift and builds DoubleGeometric(s, shift); its sample returns the unmodified draw on the edge 0 <= draw <= shift_doubled and redraws on the others")
+    def body(path):
+        b = facts.bodies.get(path)
+        if b is None:
+            ctx.missing("SHAPE-sampler", path.replace(DP, ""))
+        else:
+            ctx.count(bodies=1)
+        return b
+    # --- Geometric::sample
+    b = body(f"<{DP}Geometric as rand::distributions::Distribution<u32>>::sample")
+    if b is not None:
+        ret = flow.strip_casts(flow.expr_of(b, {"cp": [0]}))
+        ok = False
+        why = "the returned value is not a local counter"
+        if ret[0] == "place":
+            c = ret[1]
+            inits, incs, other = [], [], []
+            for bb, idx, st in b.iter_assigns():
+                if st["p"] == [c]:
+                    e = flow.strip_casts(flow.expr_of(b, st["r"]["o"])) if st["r"]["k"] == "use" else ("?",)
+                    # expr_of of `c = c + 1` unfolds to ('bin', Add, place c, 1)
+                    if e == ("const", 0):
+                        inits.append(bb)
+                    elif e[0] == "bin" and e[1].startswith("Add") and ("const", 1) in (flow.strip_casts(e[2]), flow.strip_casts(e[3])) and ("place", c) in (flow.strip_casts(e[2]), flow.strip_casts(e[3])):
+                        incs.append(bb)
+                    else:
+                        other.append((bb, e))
+            gs = malsec.guards(b, r"Distribution::sample$")
+            gs = [g for g in gs if "bernoulli" in str(g[1])]
+            dom = b.dominators()
+            if len(inits) == 1 and len(incs) == 1 and not other and len(gs) == 1:
+                ed = gs[0][2]           # (false target, true target)
+                inc_on_false = flow.dominates(dom, ed[0], incs[0]) and incs[0] not in b.reachable(ed[1], avoid=frozenset([gs[0][0]]))
+                ret_on_true = any(bb in b.reachable(ed[1], avoid=frozenset([gs[0][0]])) for bb in flow.ret_blocks(b)) and not any(bb in b.reachable(ed[0], avoid=frozenset([gs[0][0]])) for bb in flow.ret_blocks(b))
+                ok = inc_on_false and ret_on_true
+                why = "failures counted from 0 until the first success" if ok else "the counter is not incremented exactly on the Bernoulli-false edge with return on the true edge (off-by-one support or wrong event counted)"
+            else:
+                why = f"counter writes: {len(inits)} init(0), {len(incs)} increment(+1), {len(other)} other; {len(gs)} Bernoulli test(s)"
+        ctx.ob("SHAPE-sampler", "Geometric::sample:counts-failures", ok, why, site_of(b))
+    # --- DoubleGeometric::sample
+    b = body(f"<{DP}DoubleGeometric as rand::distributions::Distribution<i32>>::sample")
+    if b is not None:
+        terms = linear(flow.expr_of(b, {"cp": [0]}))
+        def is_draw(e):
+            return e[0] == "call" and e[1].endswith("Distribution::sample") and flow.strip_casts(e[2][0]) == ("arg", 1, "geometric")
+        pos = [t for sg, t in terms if sg > 0]
+        neg = [t for sg, t in terms if sg < 0]
+        ndraw = len([1 for bb, t in b.calls() if (F.callee(t)[0] or "").endswith("Distribution::sample")])
+        ok = len(terms) == 3 and len(neg) == 1 and is_draw(neg[0]) and sorted(map(str, pos)) == sorted(map(str, [("arg", 1, "shift"), neg[0]])) and ndraw == 2
+        ctx.ob("SHAPE-sampler", "DoubleGeometric::sample:shift+g1-g2", ok, "shift + g1 - g2 over two separate draws" if ok else f"the double-geometric sample is not shift + g1 - g2 of two draws (terms: {[(sg, str(t)[:60]) for sg, t in terms]}, draws: {ndraw})", site_of(b))
+    # --- DoubleGeometric::new: p = 1 - e^(-1/s)
+    b = body(DP + "DoubleGeometric::new")
+    if b is not None:
+        one, e_, m1 = f64_bits(1.0), f64_bits(2.718281828459045), f64_bits(-1.0)
+        ok = False
+        for bb, t in b.calls():
+            if (F.callee(t)[0] or "") == DP + "Geometric::new":
+                p_ = flow.strip_casts(flow.expr_of(b, t["args"][0]))
+                if p_[0] == "bin" and p_[1] == "Sub" and p_[2] == ("const", one):
+                    x = flow.strip_casts(p_[3])
+                    inv = ("bin", "Div", ("const", m1), ("arg", 1))
+                    if x[0] == "call" and x[1].endswith("::powf") and x[2][0] == ("const", e_) and flow.strip_casts(x[2][1]) == inv:
+                        ok = True
+                    if x[0] == "call" and x[1].endswith("::exp") and flow.strip_casts(x[2][0]) == inv:
+                        ok = True
+        ctx.ob("SHAPE-sampler", "DoubleGeometric::new:p=1-exp(-1/s)", ok, "success probability 1 - e^(-1/s)" if ok else "the geometric success probability is not 1 - e^(-1/s): the decay rate of the noise no longer matches epsilon", site_of(b))
+        ok2 = any(st["r"]["k"] == "agg" and st["r"].get("adt", "").endswith("DoubleGeometric") and flow.expr_of(b, st["r"]["ops"][0]) == ("arg", 2) for _, _, st in b.iter_assigns())
+        ctx.ob("SHAPE-sampler", "DoubleGeometric::new:shift", ok2, "stores the shift it was given" if ok2 else "the stored shift is not the constructor argument", site_of(b))
+    # --- TruncatedDoubleGeometric::new
+    b = body(DP + "TruncatedDoubleGeometric::new")
+    if b is not None:
+        ok = False
+        for _, _, st in b.iter_assigns():
+            if st["r"]["k"] == "agg" and st["r"].get("adt", "").endswith("TruncatedDoubleGeometric"):
+                d = flow.strip_casts(flow.expr_of(b, st["r"]["ops"][0]))
+                inner = str(flow.expr_of(b, st["r"]["ops"][1]))
+                dbl = d in (("bin", "Mul", ("const", 2), ("arg", 2)), ("bin", "Mul", ("arg", 2), ("const", 2)), ("bin", "Add", ("arg", 2), ("arg", 2)), ("bin", "Shl", ("arg", 2), ("const", 1)))
+                ok = dbl and "DoubleGeometric::new', (('arg', 1), ('arg', 2))" in inner
+        ctx.ob("SHAPE-sampler", "TruncatedDoubleGeometric::new:2*shift", ok, "support [0, 2*shift] centred on the inner sampler's shift" if ok else "shift_doubled is not 2*shift of the same shift the inner sampler is built with (support not centred on the mean)", site_of(b))
+    # --- TruncatedDoubleGeometric::sample
+    b = body(f"<{DP}TruncatedDoubleGeometric as rand::distributions::Distribution<u32>>::sample")
+    if b is not None:
+        dom = b.dominators()
+        draws = [(bb, t) for bb, t in b.calls() if (F.callee(t)[0] or "").endswith("Distribution::sample")]
+        ret = strip_lossless(flow.expr_of(b, {"cp": [0]}))
+        def is_draw(e):
+            e = flow.strip_casts(e) if e[0] != "cast" else e
+            return e[0] == "call" and e[1].endswith("Distribution::sample") and flow.strip_casts(e[2][0]) == ("arg", 1, "double_geometric")
+        okv = len(draws) == 1 and is_draw(ret)
+        ctx.ob("SHAPE-sampler", "TruncatedDoubleGeometric::sample:returns-the-draw", okv, "the accepted draw is returned unchanged" if okv else f"the returned value is `{str(ret)[:90]}`, not the draw itself: rejected draws are folded / clamped / re-mapped into the support, which moves probability mass (the ratio between neighbouring values is no longer e^epsilon at the ends)", site_of(b))
+        rets = flow.ret_blocks(b)
+        def lower(f):
+            op, l, r = f
+            l, r = strip_lossless(l), strip_lossless(r) if r is not None else None
+            return (op == "Ge" and is_draw(l) and r == ("const", 0)) or (op == "Gt" and is_draw(l) and r == ("const", -1)) or (op == "Le" and r is not None and is_draw(r) and l == ("const", 0))
+        def upper(f):
+            op, l, r = f
+            l, r = strip_lossless(l), strip_lossless(r) if r is not None else None
+            sd = ("arg", 1, "shift_doubled")
+            return (op == "Le" and is_draw(l) and r == sd) or (op == "Ge" and r is not None and is_draw(r) and l == sd)
+        # the block that produces the return value
+        retdef = [bb for bb, t in b.calls() if t["d"] == [0]] + [bb for bb, idx, st in b.iter_assigns() if st["p"] == [0]]
+        okl = bool(retdef) and all(flow.holds(b, dom, x, lower) for x in retdef)
+        oku = bool(retdef) and all(flow.holds(b, dom, x, upper) for x in retdef)
+        ctx.ob("SHAPE-sampler", "TruncatedDoubleGeometric::sample:accept-iff-0<=draw", okl, "accepted only if draw >= 0" if okl else "a draw is accepted without the dominating test draw >= 0", site_of(b))
+        ctx.ob("SHAPE-sampler", "TruncatedDoubleGeometric::sample:accept-iff-draw<=2shift", oku, "accepted only if draw <= 2*shift" if oku else "a draw is accepted without the dominating test draw <= shift_doubled", site_of(b))
+        # rejecting edges redraw
+        rej = [tgt for tgt, f in flow.edge_guards(b) if (f[0] in ("Lt",) and lower(("Ge", f[1], f[2]))) or (f[0] == "Gt" and upper(("Le", f[1], f[2])))]
+        okr = len(rej) >= 2 and draws and all(not any(r in b.reachable(tgt, avoid=frozenset([draws[0][0]])) for r in rets) and draws[0][0] in b.reachable(tgt) for tgt in rej)
+        ctx.ob("SHAPE-sampler", "TruncatedDoubleGeometric::sample:reject-redraws", bool(okr), "an out-of-range draw is discarded and a fresh one is taken" if okr else "an out-of-range draw does not lead to a fresh draw (it is returned, clamped or the loop ends)", site_of(b))
+
+
+def f64_bits(x):
+    return struct.unpack("<Q", struct.pack("<d", x))[0]
